@@ -68,16 +68,18 @@ def tables(recs, vocabs, extra_keys=(), extra_values=()):
                                 vals.update(d[1])
                     else:
                         vals.update(c["dflt"])
+    # the specification sees text as character tokens (chars.enc): table keys are encoded the same way
+    from .chars import enc
     keytab = {}
     for kt in KEYTYPES:
         for t in toks:
             r = refconv.keyconv(kt, t)
-            keytab[(kt, t)] = {"ok": r is not None, "v": r or ""}
+            keytab[(kt, enc(t))] = {"ok": r is not None, "v": enc(r) if r else ""}
     convtab = {}
     for dt in dts:
         for t in vals:
             r = refconv.convert(dt, t)
-            convtab[(dt, t)] = {"ok": r is not None, "v": r or ""}
+            convtab[(dt, enc(t))] = {"ok": r is not None, "v": r or ""}
     return keytab, convtab
 
 
